@@ -78,6 +78,9 @@ class OctKey(Key):
         if isinstance(raw, Key):
             raise ValueError('Invalid key: a "oct" key is required')
 
+        if raw is None:
+            raise ValueError("Missing key")
+
         if isinstance(raw, dict):
             cls.check_required_fields(raw)
             key = cls(options=options)
